@@ -34,10 +34,24 @@ ACTIONS = ["Send", "TrySend", "WhenEmpty", "SendWake", "WhenFlushed", "FlushRet"
            "RecvTake", "IdleWake", "AttemptEnd", "RetryWake"]
 
 QUICK = ["q1", "q2", "q3", "q4", "q5", "kill"]
-QUICK_EVERY = {"q1": 2, "q2": 5, "q3": 1, "q4": 1, "q5": 3, "kill": 3}     # quick: seeded sample of the transitions
+QUICK_EVERY = {"q1": 2, "q2": 5, "q3": 1, "q4": 1, "q5": 1, "kill": 3}     # quick: seeded sample of the transitions
 THOROUGH = ["q1", "q2", "q3", "q4", "q5", "kill", "t3", "t1", "t2", "t1sim", "t2sim"]
 SIM_BEHAVIOURS = 6000     # per worker
 NSHARDS = 12
+
+
+def attribute(t, evn, idx, inv):
+    """Which property a level-A rejection belongs to."""
+    p = "C09" if inv in ("QueueBounded",) else "C06" if inv == "AccNoDup" else EV_PROP.get(evn.get("ev"), "C06")
+    if evn.get("ev") == "CallerPanicked" and evn.get("op") == "send":
+        p = "C08+C09"
+    if evn.get("ev") == "Ret":
+        p = "C06+C08"      # retry policy: re-delivery of the remainder / per-batch budget
+    if evn.get("ev") in ("Take", "TakeEmpty") and idx > 0 and t["trace"][idx - 1].get("ev") == "Ret":
+        p = "C06+C08"      # the receiver moved on although the remainder had to be retried
+    if evn.get("ev") == "Fired" and sum(1 for e in t["trace"][:idx] if e.get("ev") == "Fired" and e.get("w") == evn.get("w")):
+        p = "C08"          # fired twice
+    return p
 
 
 def flush_trees(ctx):
@@ -141,6 +155,8 @@ def run(ctx, prop):
                 and not (a == "RetryWake" and name == "q4" and False)]
         if name == "q4":
             must.append("CbReturn")
+        if name == "q5":
+            must = [a for a in must if a not in ("WhenFlushed", "FlushRet")]
         if not sim:
             ctx.require_actions(r, must, name)
         cases = os.path.join(ctx.out, "cases-%s.ndjson" % name)
@@ -211,11 +227,17 @@ def run(ctx, prop):
                 t.setdefault("what", [])
                 all_traces.append(t)
 
-    # too many divergent replays (a broken tree): keep the longest and an even sample of the rest
+    # too many divergent replays (a broken tree): per configuration keep the longest and an even
+    # sample of the rest
     div = [t for t in all_traces if t["divergent"] and not t["hang"]]
     if len(div) > 3000:
-        div.sort(key=lambda t: -len(t["trace"]))
-        keep = set(id(t) for t in div[:1500]) | set(id(t) for t in div[1500::max(1, (len(div) - 1500) // 1500)])
+        keep = set()
+        for cfgname in set(t["config"] for t in div):
+            dc = [t for t in div if t["config"] == cfgname]
+            dc.sort(key=lambda t: -len(t["trace"]))
+            keep |= set(id(t) for t in dc[:300])
+            rest = dc[300:]
+            keep |= set(id(t) for t in rest[::max(1, len(rest) // 400)])
         all_traces = [t for t in all_traces if not t["divergent"] or t["hang"] or id(t) in keep]
         ctx.cov["divergent_replays_not_validated"] = len(div) - len(keep)
 
@@ -228,10 +250,18 @@ def run(ctx, prop):
 
     # ------------------------------------------------------------------ level A validation
     todo = [t for t in all_traces if not t["hang"]]
+    # divergent ones first, the configurations interleaved, so a few rejections show their variety
+    import itertools
+    bycfg = {}
+    for t in todo:
+        bycfg.setdefault((not t["divergent"], t["config"]), []).append(t)
+    groups = [bycfg[k] for k in sorted(bycfg)]
+    todo = [t for tup in itertools.zip_longest(*groups) for t in tup if t is not None]
     nval = 0
     rejected = []
     rounds = 0
-    while todo and rounds < 40 and len(rejected) < 6:
+    own = 0
+    while todo and rounds < 45 and own < 6:
         rounds += 1
         path = os.path.join(ctx.out, "atrace-%d.ndjson" % rounds)
         starts = []
@@ -260,23 +290,19 @@ def run(ctx, prop):
         evn = t["trace"][min(n - starts[k], len(t["trace"]) - 1)]
         nval += k
         rejected.append((t, evn, n - starts[k], r.violated))
+        if prop in attribute(t, evn, n - starts[k], r.violated).split("+"):
+            own += 1
         todo = todo[k + 1:]
     ctx.cov["level_a_traces_validated"] = nval
     ctx.cov["traces_validated_against_impl"] += sum(1 for t in all_traces if t["config"] == "stress")
     for t, evn, idx, inv in rejected:
-        p = "C09" if inv in ("QueueBounded",) else "C06" if inv == "AccNoDup" else EV_PROP.get(evn.get("ev"), "C06")
-        if evn.get("ev") == "CallerPanicked" and evn.get("op") == "send":
-            p = "C08+C09"
-        if evn.get("ev") == "Ret":
-            p = "C06+C08"      # retry policy: re-delivery of the remainder / per-batch budget
-        if evn.get("ev") == "Fired" and sum(1 for e in t["trace"][:idx] if e.get("ev") == "Fired" and e.get("w") == evn.get("w")):
-            p = "C08"   # fired twice
+        p = attribute(t, evn, idx, inv)
         report(p, "level A (ChannelTrace.tla) rejects the recorded execution at event %d %s (%s); level-B differences: %s" % (
             idx, json.dumps(evn), t["config"], "; ".join(t["what"])[:300]),
             {"config": t["config"], "case": t.get("case"), "trace": t["trace"], "rejected_at": idx},
             sig="%s %s" % (t["config"], evn.get("ev")))
     rej_ids = set(id(t) for t, _, _, _ in rejected)
-    unval = set(id(t) for t in todo) if rejected and len(rejected) >= 6 else set()
+    unval = set(id(t) for t in todo) if rejected and (own >= 6 or rounds >= 45) else set()
     for t in all_traces:
         if t["divergent"] and not t["hang"] and id(t) not in rej_ids and id(t) not in unval:
             if len(drift) < 10:
